@@ -67,6 +67,13 @@ func c14Ops() []c14Op {
 			c14Op{kind: "RemoveRel", typ: t, name: "x"},
 		)
 	}
+	ops = append(ops,
+		// a relationship given "from the other side": FromType names another type, ToType this one
+		c14Op{kind: "AddRel", typ: "a", rel: j.Rel{FromType: "b", FromName: "w", ToType: "a"}},
+		c14Op{kind: "AddRel", typ: "a", rel: j.Rel{FromType: "b", FromName: "w2", ToType: "a", ToName: "r"}},
+		// a one-sided declaration that names b.s as its inverse; a.r <-> b.s can still be added later
+		c14Op{kind: "AddRel", typ: "a", rel: j.Rel{FromType: "a", FromName: "d", ToType: "b", ToName: "s"}},
+	)
 	ops = append(ops, c14Op{kind: "Lookups"})
 	two := func(ft, fn, tt, tn string) c14Op {
 		return c14Op{kind: "AddTwoWayRel", rel: j.Rel{FromType: ft, FromName: fn, ToOne: true, ToType: tt, ToName: tn, FromOne: false}}
@@ -363,7 +370,7 @@ func init() {
 	sort.Strings(names)
 	Register(&Prop{
 		ID: "C14",
-		Rule: fmt.Sprintf("Engine B: breadth-first search over ALL histories (depth <= 6 quick / 8 thorough) of %d schema-edit operations (AddType/RemoveType over {a,b,c,\"\",ab,\" \",\"a \",unknown}; AddAttr with valid, empty-named, invalid-kind attributes; RemoveAttr (incl. by the name of a relationship); AddRel with valid, duplicate, empty-named, empty-target relationships; RemoveRel (incl. by the name of an attribute); AddTwoWayRel in normalised and non-normalised direction, within one type, with a missing type and taken names) on a real Schema, de-duplicated by a deep heap snapshot (type ORDER is part of the state, so first/middle/last removals are distinct). Oracle on every transition: no panic, error iff the list-of-types model says so, error => snapshot unchanged, Schema.Types == model, well-formedness invariant, HasType/GetType agree with the list. A state is non-trivial when it holds at least one type", len(c14Ops())),
+		Rule: fmt.Sprintf("Engine B: breadth-first search over ALL histories (depth <= 6 quick / 8 thorough) of %d schema-edit operations (AddType/RemoveType over {a,b,c,\"\",ab,\" \",\"a \",unknown}; AddAttr with valid, empty-named, invalid-kind attributes; RemoveAttr (incl. by the name of a relationship); AddRel with valid, duplicate, empty-named, empty-target relationships, relationships given from the other side (FromType another type) and one-sided declarations naming an inverse; RemoveRel (incl. by the name of an attribute); AddTwoWayRel in normalised and non-normalised direction, within one type, with a missing type and taken names) on a real Schema, de-duplicated by a deep heap snapshot (type ORDER is part of the state, so first/middle/last removals are distinct). Oracle on every transition: no panic, error iff the list-of-types model says so, error => snapshot unchanged, Schema.Types == model, well-formedness invariant, HasType/GetType agree with the list. A state is non-trivial when it holds at least one type", len(c14Ops())),
 		Assumptions: []string{"a relationship that is its own inverse is outside the domain (as stated)"},
 		Harnesses: []Harness{{
 			Name: "C14/edits",
